@@ -975,8 +975,8 @@ def run(ctx):
     t0 = time.time()
     bfs_level, bfs_foreign = (0, 1) if quick else (1, 99)
     case_level = 1 if quick else 2
-    n_random = 30 if quick else 150
-    deep_per_sub = 4 if quick else 30
+    n_random = 30 if quick else 500
+    deep_per_sub = 4 if quick else 60
     n_hist_inv, maxinv = (14, 2) if quick else (22, 3)
     nworkers = 6
     ctx.rule = ("TLC: every (subcommand, option subset, value) of the 11 modelled subcommands - values incl. tokens argparse / the loaders refuse, plus one "
@@ -1159,7 +1159,7 @@ def run(ctx):
     finally:
         pool.shutdown(wait=True, cancel_futures=True)
 
-    ctx.exhaustive = True
+    ctx.exhaustive = False      # TLC walks the whole space; the replayed cases are a covering subset of it (rule above)
     ctx.note("tlc_space", [{"level": lv, "undeclared_option_on_assignments_of_up_to": fo, "distinct_states": r.distinct, "invariants": SPACE_INVARIANTS}
                            for (lv, fo), r in zip([(bfs_level, bfs_foreign), (2, 2)], spaces)])
     ctx.note("tlc_histories", {"invocations": len(inv_idx), "max_per_process": maxinv, "distinct_states": r_hist.distinct, "invariants": ["NoCarryOver", "ProcStable"],
